@@ -42,7 +42,17 @@ def check(ctx, rep):
         where = prog.span_str(s["span"])
         rule = None
         why = None
-        if kind == "panic_fmt" and owner in ("range::BoundSet::satisfies", "<range::BoundSet as std::fmt::Display>::fmt"):
+        if owner.startswith("SemverError::location"):
+            if "inconclusive" in (entry.get("Version::parse"), entry.get("range::Range::parse")):
+                continue
+            if entry.get("Version::parse") == "ok" and entry.get("range::Range::parse") == "ok":
+                lt = location_evidence(ctx, prog, rep)
+                if lt is None:
+                    continue
+                if lt:
+                    rule, why = "D-LOC", ("no (text, offset) class of the location() table reaches a panic; offsets are 0, len or a "
+                                          "stream position of the caller's string (C17 E2), hence <= len and on a char boundary")
+        elif kind == "panic_fmt" and owner in ("range::BoundSet::satisfies", "<range::BoundSet as std::fmt::Display>::fmt"):
             if sat_ok.get(owner) is None:
                 continue        # the supporting table was inconclusive (already reported as such)
             if sat_ok.get(owner):
@@ -81,11 +91,6 @@ def check(ctx, rep):
                 rule, why = "D-PTR", "pointer difference between the error position and the start of the caller's string (same buffer, later position)"
             else:
                 why = "the subtraction is not a (position - start of the caller's string) difference: %s" % entry.get(owner)
-        elif owner.startswith("SemverError::location"):
-            if "inconclusive" in (entry.get("Version::parse"), entry.get("range::Range::parse")):
-                continue
-            if entry.get("Version::parse") == "ok" and entry.get("range::Range::parse") == "ok":
-                rule, why = loc_rule(s)
         elif kind == "panic_fmt" and FROM_SIGNED.match(owner):
             rule, why = "D-PRE", "debug_assert on a negative component: outside the input domain of the property (precondition)"
         if rule is None and kind == "assert" and s["msg"] == "Overflow" and const_arith_is_safe(prog, s):
@@ -136,6 +141,32 @@ def stored_component_plus_one(prog, owner, s):
         return False
     body = prog.bodies[owner]
     return prog.ty_str(body["locals"][int(m.group(1))]) == "Version"
+
+
+_LOC = {}
+
+
+def location_evidence(ctx, prog, rep):
+    """True: no panic in the location() table; False: some class panics; None: inconclusive (reported)"""
+    if "v" in _LOC:
+        return _LOC["v"]
+    from .. import location
+    rows = location.table(prog, 4)
+    v = True
+    for r in rows:
+        rep.path(("location", r["sig"]))
+        if r["status"] == "inconclusive":
+            rep.inconc("D-LOC: %s" % r["error"][0], r["error"][1])
+            v = None
+            break
+        if r["status"] == "panic":
+            rep.fail("D-LOC", "SemverError::location|D-LOC|panic", "location() panics for text class %s at valid offset %d: %s" % (
+                r["word"], r["offset"], r["error"]))
+            v = False
+            break
+    rep.analysed_item("SemverError::location interpreted on %d (text, offset) classes for reachability of its panic sites" % len(rows))
+    _LOC["v"] = v
+    return v
 
 
 def loc_rule(s):
